@@ -11,8 +11,12 @@
    is covered by conformance runs only), commutativity of Join in the
    specification, and in the model wherever both operand orders lie in the proved
    C04 fragment (in general it fails on the model: findings F-C04-3, F-C04-4 are
-   asymmetric).  NOT proved: invariance under renaming, initBindings = VALUES. *)
-From RV Require Import Sparql.VariantProofs.
+   asymmetric); likewise associativity of Join, the placement of a FILTER before or
+   after a join, and "pre-binding = a VALUES row"; the prepared Query object as a
+   state machine whose evaluations do not change it (tied by snapshots of the real
+   object's tree).  NOT proved: invariance under renaming (C15_rename), the
+   "never forgotten" half of initBindings (not in the model). *)
+From RV Require Import Sparql.VariantProofs Sparql.PreparedProofs.
 
 Theorem C15_bgp_perm : forall ds g ts ts',
   Permutation ts ts' -> Permutation (eval_bu ds g (BGP ts)) (eval_bu ds g (BGP ts')).
@@ -48,6 +52,58 @@ Theorem C15_join_comm_model_partial : forall ds, graphs_nodup ds -> ds_nb ds -> 
 Proof. exact td_join_comm. Qed.
 Print Assumptions C15_join_comm_model_partial.
 
+(* associativity of Join: list for list in the specification, up to permutation in
+   the top-down model wherever both bracketings lie in the proved fragment *)
+Theorem C15_join_assoc : forall ds g l1 l2 l3 l4 a b d, shape a = true -> shape b = true -> shape d = true ->
+  eval_bu ds g (Join l1 (Join l2 a b) d) = eval_bu ds g (Join l3 a (Join l4 b d)).
+Proof. exact bu_join_assoc. Qed.
+Print Assumptions C15_join_assoc.
+
+Theorem C15_join_assoc_model_partial : forall ds, graphs_nodup ds -> ds_nb ds ->
+  forall pushed l1 l2 l3 l4 a b d g c,
+  frag (map fst (ds_named ds)) pushed (Join l1 (Join l2 a b) d) = true ->
+  frag (map fst (ds_named ds)) pushed (Join l3 a (Join l4 b d)) = true ->
+  gok g -> sol_wf c = true -> dom_in c pushed ->
+  Permutation (eval_td ds g c (Join l1 (Join l2 a b) d)) (eval_td ds g c (Join l3 a (Join l4 b d))).
+Proof. exact td_join_assoc. Qed.
+Print Assumptions C15_join_assoc_model_partial.
+
+(* FILTER placement within a group: a filter over variables the left operand
+   certainly binds may be applied to that operand or to the whole join *)
+Theorem C15_filter_placement : forall ds, graphs_nodup ds -> ds_nb ds ->
+  forall g n1 fv1 n2 fv2 l l' e a b,
+  shape a = true -> shape b = true -> gok g ->
+  efrag (map fst (ds_named ds)) (maybe a ++ maybe b) e = true ->
+  nonempty (inter (cmp_vars_e e) (bool_vars a ++ bool_vars b)) = false ->
+  subsetv (evars e) (cert a) = true ->
+  eval_bu ds g (Filter n1 fv1 e (Join l a b)) = eval_bu ds g (Join l' (Filter n2 fv2 e a) b).
+Proof. exact bu_filter_join. Qed.
+Print Assumptions C15_filter_placement.
+
+Theorem C15_filter_placement_model_partial : forall ds, graphs_nodup ds -> ds_nb ds ->
+  forall pushed g c n1 fv1 n2 fv2 l l' e a b,
+  frag (map fst (ds_named ds)) pushed (Filter n1 fv1 e (Join l a b)) = true ->
+  frag (map fst (ds_named ds)) pushed (Join l' (Filter n2 fv2 e a) b) = true ->
+  efrag (map fst (ds_named ds)) (maybe a ++ maybe b) e = true ->
+  nonempty (inter (cmp_vars_e e) (bool_vars a ++ bool_vars b)) = false ->
+  subsetv (evars e) (cert a) = true ->
+  gok g -> sol_wf c = true -> dom_in c pushed ->
+  Permutation (eval_td ds g c (Filter n1 fv1 e (Join l a b))) (eval_td ds g c (Join l' (Filter n2 fv2 e a) b)).
+Proof. exact td_filter_join. Qed.
+Print Assumptions C15_filter_placement_model_partial.
+
+(* pre-binding = VALUES: the top-down model started under a context c answers as
+   the algebra of the pattern joined with the one-row table VALUES c.  This is the
+   "start context" half of initBindings (partial: that initBindings are also never
+   forgotten by forget() is not part of the model; that half is covered by the
+   initBindings-versus-VALUES runs and the trigger init_vis only) *)
+Theorem C15_prebinding_values_partial : forall ds, graphs_nodup ds -> ds_nb ds ->
+  forall pushed l p g c,
+  frag (map fst (ds_named ds)) pushed p = true -> gok g -> sol_wf c = true -> dom_in c pushed ->
+  Permutation (eval_td ds g c p) (eval_bu ds g (Join l p (Values [c]))).
+Proof. exact td_prebound_values. Qed.
+Print Assumptions C15_prebinding_values_partial.
+
 Theorem C15_spec_reading : forall c o,
   spec_ok15 c o = true <-> (length o = length c /\ forall l, In l o -> group_ok l = true).
 Proof. exact spec_ok15_iff. Qed.
@@ -61,6 +117,27 @@ Print Assumptions C15_group_reading.
 Theorem C15_main_partial : forall c, no_own_algebra c = true -> spec_ok15 c (model_obs15 c) = true.
 Proof. exact model_same_algebra. Qed.
 Print Assumptions C15_main_partial.
+
+(* the prepared Query object as a state machine (Sparql/Prepared.v): whatever
+   the sequence of evaluations, the state stays the tree prepareQuery built and
+   every answer is the answer of a fresh evaluation of that tree *)
+Theorem C15_prepared_pure : forall f s steps,
+  map snd (prep_run f s steps) = repeat s (length steps)
+  /\ map fst (prep_run f s steps) = map (fun ds => answer f (eval_td ds (ds_default ds) [] s)) steps.
+Proof. exact prep_run_pure. Qed.
+Print Assumptions C15_prepared_pure.
+
+(* reading of the checker of the prepared_state suite: every snapshot of the
+   real object's tree IS the tree right after prepareQuery (structural equality
+   incl. lazy flags, _vars sets and the order of the triple patterns) *)
+Theorem C15_prepared_spec_reading : forall c o,
+  spec_ok_prep c o = true <-> (length o = N.to_nat (snd c) /\ forall a, In a o -> a = fst c).
+Proof. exact spec_ok_prep_iff. Qed.
+Print Assumptions C15_prepared_spec_reading.
+
+Theorem C15_prepared_spec_model : forall c, spec_ok_prep c (model_obs_prep c) = true.
+Proof. exact spec_ok_prep_model. Qed.
+Print Assumptions C15_prepared_spec_model.
 
 Example C15_nonvacuous :
   exists ts ts', ts <> ts' /\ Permutation ts ts'
